@@ -57,6 +57,12 @@ func (c11) Generate(r *sim.Rand, tier string) *sim.Scenario {
 		O = r.Range(1, 4)
 	}
 	D := r.Range(1, 5)
+	if r.Bool(0.1) {
+		D = r.Range(6, 24)
+	}
+	if loss == 2 && r.Bool(0.1) {
+		O = r.Range(5, 17)
+	}
 	batch := []int{1, 1, 2, 3, 4, 6, 1, 2, 5, 17, 24, 33}[r.Intn(12)]
 	nb := r.Range(1, 3)
 	act := r.Intn(6)
@@ -134,6 +140,9 @@ func (c11) Generate(r *sim.Rand, tier string) *sim.Scenario {
 	nsteps := r.Range(1, 8)
 	if tier == "thorough" {
 		nsteps = r.Range(1, 12)
+	}
+	if r.Bool(0.05) {
+		nsteps = r.Range(13, 30) // long histories (fault enumeration grows with the square: kept rare)
 	}
 	pf := []float64{0, 0, 0.15, 0.3}[r.Intn(4)]
 	for k := 0; k < nsteps; k++ {
